@@ -22,6 +22,8 @@ func init() {
 
 func runC07(c *Ctx) {
 	c.Rule("R7.7", 1, "a specification is not rejected because the dependency fails on it")
+	c.Rule("R7.8", 4, "an invalid pattern is rejected: unsupported range ends are not clipped away (= R9.6)")
+	checkClampKeepsOutsider(c, "R7.8")
 	c.Rule("R7.6", 3, "every precedence level written reaches the recorded list (and with it the verifier of the levels)")
 	c.Rule("R7.1", 8, "every verifier runs and is heard; success only with a nil aggregate")
 	c.Rule("R7.2", 3, "predefined names are the documented ones; unknown names are errors")
